@@ -25,7 +25,8 @@
 //   Step     k, proc (cer|scint), var, mat, part, charge, called, lenzero, edepzero, rk{...},
 //            in{tokens}, dist{n, valid, tokens}, gen, aborted, draws, seg{lo[3],hi[3]},
 //            comps[{elo,ehi,bounded}], phot[{...}], cls, x{raw values as text}
-//   BConfig / BOffload / BGenerate / BLaunch / BError    bookkeeping state machine (mode book)
+//   BConfig / BOffload / BGenerate / BEmptyGenerate / BLaunch / BError / BAbort / BEnd
+//            bookkeeping state machine (mode book)
 //   Close    n, classes (coverage tuples measured by the harness), nontrivial
 //
 // The per-track glue of detail/{Cerenkov,Scint}OffloadExecutor.hh, *GeneratorExecutor.hh and
@@ -1433,6 +1434,9 @@ int run_book(int argc, char** argv)
                     continue;
                 }
                 rec["flushed"] = true;
+                CountingEngine grng(xeng, 2000000);  // draw cap of one flush
+                try
+                {
                 // REAL: prefix sums
                 size_type count = detail::inclusive_scan_photons(
                     buffer, st.offsets, bsize, StreamId{0});
@@ -1468,13 +1472,13 @@ int run_book(int argc, char** argv)
                                 if (scint)
                                 {
                                     optical::ScintillationGenerator g(w.sci->host_ref(), dd);
-                                    p = g(rng);
+                                    p = g(grng);
                                 }
                                 else
                                 {
                                     optical::MaterialView mv(w.omat->host_ref(), dd.material);
                                     optical::CerenkovGenerator g(mv, w.cer->host_ref(), dd);
-                                    p = g(rng);
+                                    p = g(grng);
                                 }
                                 // the photon belongs to the tagged step: its time starts at
                                 // the tag (tags are integers, delays are << 1 s)
@@ -1501,6 +1505,14 @@ int run_book(int argc, char** argv)
                 rec["pending_after"] = bs.num_photons;
                 out(rec);
                 ++nrec;
+                }
+                catch (verif::DrawCapExceeded const&)
+                {
+                    // a generator did not return within the draw cap: observed event
+                    out({{"e", "BAbort"}, {"run", r}, {"proc", scint ? "scint" : "cer"}});
+                    ++nrec;
+                    dead = true;
+                }
             }
             // ---- launch: the optical loop consumes the initializers ----
             if (!dead && ninit > 0)
